@@ -268,3 +268,17 @@ def refusal_predicate(case, obs):
                 changed = [k for k in o["state"] if o["state"][k] != prev["state"][k]]
                 out.append(("a refused dimension call changed the file", i, {"op": case["ops"][i], "changed": changed}))
     return out
+
+
+def frame_links_stage(ctx, n, length):
+    """implementation only: dimensions linked to data-frame columns report the column they were linked to LAST"""
+    r = ctx.run_impl("impl_framelinks.py", {"seed": ctx.seed, "n": n, "len": length}, timeout=1800)
+    if r["failures"] and not ctx.violations:
+        fl = sorted(r["failures"], key=lambda x: len(x["history"]))[0]
+        rp = ctx.write_replay("%s-framelinks-seed%d.json" % (ctx.prop, ctx.seed), {
+            "property": ctx.prop, "kind": fl["problem"], "input": {"calls": fl["history"]}, "observed": fl["problem"],
+            "count": len(r["failures"])})
+        ctx.violation("%d data-frame link histories violate %s, e.g. %s" % (len(r["failures"]), ctx.prop, fl["problem"]), rp)
+    ctx.coverage["frame_link_histories"] = r["trials"]
+    ctx.coverage["frame_link_failures"] = len(r["failures"])
+    ctx.coverage["evaluations"] += r["trials"] * length
